@@ -27,8 +27,13 @@ def base_layers():
 
 def realise(fault, nondim, rof):
     c = {"layers": base_layers(), "nondim": nondim, "raise_on_fail": rof, "solve_for": ["tidal"], "n": 20}
-    if fault == "tuple_length_mismatch":
-        c["is_static"] = [True]
+    if fault in ("len_is_static", "len_is_incompressible", "len_upper_radius"):
+        # the (nondim, raise_on_fail) coordinates of the model double as the way the length is wrong: short / long / empty / short
+        n = len(c["layers"])
+        how = {(True, True): n - 1, (True, False): n + 1, (False, True): 0, (False, False): n - 1}[(bool(nondim), bool(rof))]
+        key = {"len_is_static": "is_static", "len_is_incompressible": "is_incompressible", "len_upper_radius": "upper_radius"}[fault]
+        good = {"is_static": [False] * n, "is_incompressible": [False] * n, "upper_radius": [L["R"] for L in c["layers"]]}[key]
+        c[key] = (good + good)[:how]
     elif fault == "solve_for_not_tuple":
         c["solve_for"] = ["tidal"]
         c["solve_for_as_list"] = True
@@ -148,8 +153,8 @@ def run(tier, seed):
     ck.add_tlc(ra, "SolverControl as found: exit enumeration")
     pred_i = {(e[1], e[2], e[3]): e for e in core.printed_values(ri.stdout, "EXIT")}
     pred_a = {(e[1], e[2], e[3]): e for e in core.printed_values(ra.stdout, "EXIT")}
-    if len(pred_i) != 56 or len(pred_a) != 56:
-        raise MachineryError("expected 56 exits per model, got %d / %d" % (len(pred_i), len(pred_a)))
+    if len(pred_i) != 64 or len(pred_a) != 64:
+        raise MachineryError("expected 64 exits per model, got %d / %d" % (len(pred_i), len(pred_a)))
     model_findings = sorted({(k[0], "inputs" if pred_a[k][5] != "orig" else "leak") for k in pred_a if pred_a[k][5] != "orig" or pred_a[k][6]})
     ck.notes["as_found_model_deviations"] = ["%s:%s" % x for x in model_findings]
     cases, keys = [], []
